@@ -173,8 +173,8 @@ func openSubscription(ctx context.Context, x *Nd, q string) *subCollector {
 			if len(r.Errors) > 0 {
 				sc.errs = append(sc.errs, fmt.Sprint(r.Errors))
 			}
-			for _, row := range rowsOf(asMap(r.Data), "User") {
-				sc.results = append(sc.results, row)
+			for key := range asMap(r.Data) {
+				sc.results = append(sc.results, rowsOf(asMap(r.Data), key)...)
 			}
 			sc.mu.Unlock()
 		}
